@@ -84,6 +84,11 @@ impl Txtpp {
 
         let progress = Progress::new(config.verbosity.clone());
 
+        if config.num_threads == 0 {
+            return Err(Report::new(TxtppError)
+                .attach_printable("the number of threads must be at least 1"));
+        }
+
         let threadpool = Builder::new().num_threads(config.num_threads).build();
         let (send, recv) = mpsc::channel();
 
